@@ -61,6 +61,23 @@ def docs():
                                                                                "mode": {"type": "string", "title": "Mode", "enum": ["x", "y"]}}}, plain=obj(z={"type": "string"}))},
         paths={"/t": {"post": {"operationId": "postT", "requestBody": {"content": {"application/json": {"schema": {"type": "object", "title": "Request Shape", "properties": {"a": {"type": "integer"}}}}}},
                                "responses": {"200": {"description": "d", "content": {"application/json": {"schema": ref("Outer")}}}}}}})
+    # distinct operations under different tags whose derived module names are equal (named / unnamed), next to a multi-tag one
+    ok = lambda n: {"200": {"description": "d", "content": {"application/json": {"schema": ref(n)}}}}  # noqa: E731
+    D["samenames"] = gen.base_doc(
+        {"Daily": obj(d={"type": "integer"}), "Legacy": obj(l={"type": "string"}), "Thing": obj(t={"type": "boolean"})},
+        paths={"/reports/daily": {"get": {"tags": ["reports"], "parameters": [{"name": "day", "in": "query", "schema": {"type": "string", "format": "date"}}], "responses": ok("Daily")}},
+               "/reports_daily": {"get": {"tags": ["legacy"], "parameters": [{"name": "n", "in": "query", "required": True, "schema": {"type": "integer"}}], "responses": ok("Legacy")}},
+               "/items/{id}": {"get": {"operationId": "getItem", "tags": ["items"], "parameters": [{"name": "id", "in": "path", "required": True, "schema": {"type": "integer"}}], "responses": ok("Thing")}},
+               "/item": {"get": {"operationId": "get_item", "tags": ["single", "items2"], "parameters": [{"name": "id", "in": "query", "required": True, "schema": {"type": "string"}}], "responses": ok("Legacy")},
+                         "post": {"operationId": "GetItem", "tags": ["third"], "requestBody": {"required": True, "content": {"application/json": {"schema": ref("Thing")}}}, "responses": ok("Daily")}}})
+    # inline enums with identical values, to be merged onto one class by class_overrides; the first use carries a default
+    colour = lambda **kw: {"type": "string", "enum": ["red", "green", "blue"], **kw}  # noqa: E731
+    D["merge-enums"] = gen.base_doc(
+        {"First": obj(colour=colour(default="red"), n={"type": "integer"}), "Second": obj(colour=colour(), s={"type": "string"}),
+         "Third": {"type": "object", "required": ["colour"], "properties": {"colour": colour()}}, "Fourth": obj(colour=colour(default="blue"))},
+        paths={"/things": {"get": {"operationId": "listThings", "parameters": [{"name": "colour", "in": "query", "schema": colour()},
+                                                                              {"name": "shade", "in": "query", "schema": colour(default="green")}],
+                                   "responses": ok("Second")}}})
     for name, fn in (("baseline31", "baseline_openapi_3.1.yaml"),):
         p = os.path.join(gen.REPO, "end_to_end_tests", fn)
         try:
@@ -83,7 +100,7 @@ def DOCS():
 CONTEXTS = {"none": {}, "literal_enums": {"literal_enums": True}, "docstrings": {"docstrings_on_attributes": True}, "attr-prefix": {"field_prefix": "attr_"},
             "all-tags": {"generate_all_tags": True}, "no-title-prefix": {"use_path_prefixes_for_title_model_names": False}}
 OPTIONS = ["project_name_override", "package_name_override", "both_name_overrides", "package_version_override", "class_override_class", "class_override_module",
-           "class_override_both", "field_prefix_attr", "field_prefix_f", "use_path_prefixes_off", "literal_enums", "docstrings_on_attributes", "generate_all_tags",
+           "class_override_both", "class_override_merge", "field_prefix_attr", "field_prefix_f", "use_path_prefixes_off", "literal_enums", "docstrings_on_attributes", "generate_all_tags",
            "content_type_overrides", "meta_flavours", "file_encoding_utf16", "file_encoding_utf8sig", "post_hooks", "output_path", "custom_templates"]
 
 
@@ -95,7 +112,11 @@ def cases(tier):
                     continue
                 if opt == "content_type_overrides" and dname != "media":
                     continue
-                if opt.startswith("class_override") and dname not in ("shop", "baseline31"):
+                if (opt == "class_override_merge") != (dname == "merge-enums") and (opt == "class_override_merge" or dname == "merge-enums"):
+                    continue
+                if opt.startswith("class_override") and dname not in ("shop", "baseline31", "merge-enums"):
+                    continue
+                if dname == "merge-enums" and opt not in ("class_override_merge", "literal_enums", "generate_all_tags"):
                     continue
                 if opt == "use_path_prefixes_off" and dname not in ("titles", "shop"):
                     continue
@@ -255,6 +276,29 @@ def run_case(p):
                 V("renaming-changes-metadata", f, "metadata differs beyond the overridden names: " + _first_line_diff(a.decode(), t))
         if opt == "package_version_override" and 'version = "9.8.7"' not in new.tree["pyproject.toml"].decode():
             V("override-not-applied", "pyproject.toml", "version override missing from pyproject.toml")
+    elif opt == "class_override_merge":
+        base = _gen(doc, ctx)
+        c = crashed(base)
+        if c:
+            return c
+        # the documented way to merge duplicate enums: map every inline enum class onto one class / module name
+        enums = [e["class"] for e in base.enums]
+        ov = {n: {"class_name": "Colour", "module_name": "colour"} for n in enums}
+        new = _gen(doc, ctx, class_overrides=ov)
+        c = crashed(new)
+        if c:
+            return c
+        if len(enums) < 5:
+            V("merge-setup", "models", f"expected >= 5 inline enum classes to merge, the generator claims {enums}")
+        bb, nb = behaviour(base), behaviour(new)
+        steps += 2
+        if bb != nb:
+            V("renaming-changes-behaviour", "behaviour", "behaviour differs after merging identical enums onto one class: " + _beh_diff(bb, nb))
+        if new.diags != base.diags and [d.short() for d in new.diags] != [d.short() for d in base.diags]:
+            V("override-diagnostics", "diagnostics", f"{[d.short()[:120] for d in new.diags][:2]}")
+        left = [e["class"] for e in new.enums if e["class"] != "Colour"]
+        if left or not new.enums:
+            V("override-not-applied", "models", f"enum classes after the merge: {[e['class'] for e in new.enums]}")
     elif opt.startswith("class_override"):
         target = "Order" if p["doc"] == "shop" else "AModel"
         ov = {}
@@ -352,8 +396,8 @@ def run_case(p):
             pass
         by_op = {}
         for ep in new.endpoints:
-            by_op.setdefault((ep["method"], ep["name"]), []).append(ep)
-        for (m, name), eps in by_op.items():
+            by_op.setdefault((ep["method"], ep["path"], ep["name"]), []).append(ep)
+        for (m, _pth, name), eps in by_op.items():
             files = {f"api/{e['tag']}/{e['module']}.py" for e in eps}
             contents = {nt.get(f) for f in files}
             if len(contents) != 1 or None in contents:
